@@ -134,7 +134,7 @@ def show(e, rng=None):
     if k == 'bool':
         return 'true' if e[1] else 'false'
     if k == 'num':
-        return '(-%d)' % -e[1] if e[1] < 0 else '%d' % e[1]
+        return show_num(e[1], rng)
     if k == 'str':
         return jstr(e[1], rng)
     if k == 'var':
@@ -182,10 +182,31 @@ def show(e, rng=None):
     raise ValueError(k)
 
 
+def show_num(z, rng):
+    """an integer literal in one of its equivalent surface forms (plain, fraction part, exponent); literals
+    beyond the double range are printed too (the model answers NumberOverflow for |z| >= 2^1024)"""
+    a = abs(z)
+    digits = '%d' % a
+    forms = [digits]
+    if rng is not None:
+        forms.append(digits + '.0')
+        forms.append(digits + 'e0')
+        forms.append(digits + '.000E+0')
+        t = digits.rstrip('0')
+        if a != 0 and len(t) < len(digits):
+            forms.append('%se%d' % (t, len(digits) - len(t)))
+            forms.append('%s.0e+%d' % (t, len(digits) - len(t)))
+        if a != 0 and len(digits) <= 15:
+            forms.append('%s0e-1' % digits)
+            forms.append('%s.%se%d' % (digits[0], digits[1:] or '0', len(digits) - 1))
+    txt = rng.choice(forms) if rng is not None else digits
+    return '(-%s)' % txt if z < 0 else txt
+
+
 def show_post(e, rng):
     s = show(e, rng)
     if e[0] in ('num',) and not s.startswith('('):
-        return '(%s)' % s
+        return '(%s)' % s     # 1.e: a digit followed by '.' would lex as a fraction
     return s
 
 
@@ -251,8 +272,11 @@ class Gen:
         """an expression that fails when evaluated (for dead positions and the error stream)"""
         r = self.rng.random()
         self.kinds.add('failing')
-        if r < 0.5:
+        if r < 0.42:
             return ('error', ('str', 'dead-' + self.rand_str()))
+        if r < 0.5:
+            # a literal that is not a finite double fails when (and only when) it is evaluated
+            return ('num', self.rng.choice([10 ** 400, -(10 ** 400), 10 ** 309, 2 ** 1024, 17976931348623159 * 10 ** 292 * 10]))
         if r < 0.6:
             return ('add', ('null',), ('num', 1))
         if r < 0.7:
@@ -270,7 +294,7 @@ class Gen:
     def lit(self, ty, d, env, ctx):
         k = ty[0]
         if k == 'num':
-            return ('num', self.rng.choice([0, 1, 2, 3, 7, -1, -5, 10, 100, 2 ** 31, 2 ** 52]))
+            return ('num', self.rng.choice([0, 1, 2, 3, 7, -1, -5, 10, 100, 1000, 2 ** 31, 2 ** 52, 2 ** 53, -(2 ** 53), 9007199254740991]))
         if k == 'str':
             return ('str', self.rand_str())
         if k == 'bool':
@@ -935,10 +959,11 @@ def instrument(src, binds):
 class Base:
     """one base program for the metamorphic search"""
 
-    def __init__(self, label, src, fields_once):
+    def __init__(self, label, src, fields_once, exhaustive=False):
         self.label = label
         self.src = src
         self.fields_once = fields_once
+        self.exhaustive = exhaustive      # every expression site x every wrapping rewrite (small programs)
         self.sites = None
         self.toks = None
 
@@ -1001,6 +1026,14 @@ def plan_variants(b, rng, per_prog):
     exprs = list(s.exprs)
     rng.shuffle(exprs)
     kinds_cycle = list(WRAP_KINDS)
+    if b.exhaustive:
+        for (a, e, multi) in exprs[:12]:
+            for kind in WRAP_KINDS:
+                if kind == 'object-proj' and SELFISH.search(src[a:e]):
+                    continue
+                k += 1
+                out.append((kind, '%x:%x' % (a, e), rewrite(src, kind, (a, e), k, rng.choice(deads))))
+        exprs = []
     for (a, e, multi) in exprs[:per_prog]:
         kind = rng.choice(kinds_cycle)
         if kind == 'object-proj' and SELFISH.search(src[a:e]):
@@ -1218,6 +1251,36 @@ def gen_rich(rng):
     if r < 0.8:
         return 'local top = %s; {r: top, again: top}' % body
     return '{out: %s}' % body
+
+
+# ---------------------------------------------------------------- leaves
+# "e fails  =>  every wrapping of e fails the same way; e is a constant => every wrapping yields it":
+# small programs that consist of, or hold in a strict position, a LEAF expression of every kind that can
+# fail or that the evaluator may special-case when it sits in a delayed position (constant folding of
+# literals into finished thunks): overflowing / boundary / huge number literals, strings and text blocks,
+# error, division by zero, null / booleans, empty array / object, references to std members.
+# These bases are rewritten exhaustively (every expression site x every wrapping rewrite).
+
+LEAVES = ['1e400', '1e309', '-1e400', '1.7976931348623157e308', '1.7976931348623159e308', '5e-324', '1e-400', '2e308',
+          '0.1', '1e308', '9007199254740993', '123456789012345678901234567890', '1' + '0' * 320, '0', '-0', '1.5', '00' if False else '7',
+          '""', '"a"', "'q\\u0000\\n'", '@"v\\"', '|||\n  text\n   block\n|||', 'error "leaf"', 'error 1e400', '1/0', '1e308 * 10', '1e308 + 1e308',
+          'null', 'true', 'false', '[]', '{}', '[1e400]', '{f: 1e400}', 'std.length', 'std.thisFile', 'std', 'std.pi', 'std.nosuch',
+          'function(x) x', '[][0]', '{}.f', '"a"[5]', '1 + null', 'if 1 then 2']
+
+LEAF_CONTEXTS = ['%s', '%s', '%s', '%s + 1', '1 + %s', '%s > 1', '%s == %s', '[%s]', '{a: %s}', 'std.type(%s)', 'std.toString(%s)',
+                 '-%s', '!%s', 'if %s == 0 then 1 else 2', 'std.length([%s])', 'local a = %s; 1', 'local a = %s; a', '[%s, 2][1]',
+                 '{a: %s, b: 1}.b', '(function(p) 1)(%s)', '(function(p) p)(%s)', '%s + "s"', '"s" + %s', 'std.isNumber(%s)',
+                 '[%s][0] > 1', '{f: %s}.f > 1', 'local v = %s; v > 1', 'std.map(function(x) x, [%s])', 'std.trace("t", %s)',
+                 'assert %s != 1 : "a"; 3', '{a: %s, assert self.a != 1}', '[x for x in [%s]]', 'std.objectHas({a: %s}, "a")']
+
+
+def gen_leaf(rng, i):
+    leaf = LEAVES[i % len(LEAVES)]
+    ctx = rng.choice(LEAF_CONTEXTS)
+    l2 = '(%s)' % leaf if (leaf.startswith('-') or ' ' in leaf or leaf.startswith('function') or leaf.startswith('if')) and ctx != '%s' else leaf
+    if leaf.startswith('|||') and ctx != '%s':
+        l2 = '(%s\n)' % leaf
+    return ctx.replace('%s', l2) if ctx.count('%s') > 1 else ctx % l2
 
 
 # ---------------------------------------------------------------- object locals / asserts / layers
@@ -1450,7 +1513,7 @@ def check(run):
     kcorp = []
     for key, l in corpus:
         if l.startswith('K '):
-            e = ast.literal_eval(l[2:])
+            e = ast.literal_eval(re.sub(r'(\d+)\*\*(\d+)', lambda m: str(int(m.group(1)) ** int(m.group(2))), l[2:]))
             kcorp.append((key, e, show(e), set()))
     run_k(run, kcorp + progs, impl_exe, model_exe, 'K')
 
@@ -1470,6 +1533,9 @@ def check(run):
     nr = 150 if quick else 5000
     for i in range(nr):
         bases.append(Base('rich-%d' % i, gen_rich(rng).encode('utf-8'), False))
+    nleaf = 150 if quick else 2500
+    for i in range(nleaf):
+        bases.append(Base('leaf-%d' % i, gen_leaf(rng, i).encode('utf-8'), False, exhaustive=True))
     no = 150 if quick else 6000
     for i in range(no):
         bases.append(Base('objloc-%d' % i, gen_objloc(rng).encode('utf-8'), True))
